@@ -47,25 +47,30 @@ def real_verdict(loop):
         signal.signal(signal.SIGALRM, old)
 
 
-def conflicts(traces, exempt):
-    """Bernstein between all pairs of iterations.  Returns None or (k, k', (x, i, j), kind)."""
+def conflicts(traces, exempt, arrays=()):
+    """Bernstein between all pairs of iterations.  Returns None or (k, k', (x, i, j), kind): the first conflict on
+    an array element if there is one (the clearest witness), else the first conflict on a scalar."""
     fp = []
     for t in traces:
         w = {tuple(e[1:]) for e in t if e[0] == 1}
         r = {tuple(e[1:]) for e in t if e[0] == 0}
         fp.append((w, r))
+    first_scalar = None
     for a in range(len(fp)):
         for b in range(len(fp)):
             if a == b:
                 continue
-            for loc in fp[a][0]:
+            for loc in sorted(fp[a][0]):
                 if loc[0] in exempt and loc[1] == 0 and loc[2] == 0:
                     continue
-                if loc in fp[b][0]:
-                    return (a, b, loc, "write-write")
-                if loc in fp[b][1]:
-                    return (a, b, loc, "write-read")
-    return None
+                kind = "write-write" if loc in fp[b][0] else "write-read" if loc in fp[b][1] else None
+                if kind is None:
+                    continue
+                if loc[0] in arrays:
+                    return (a, b, loc, kind)
+                if first_scalar is None:
+                    first_scalar = (a, b, loc, kind)
+    return first_scalar
 
 
 def model_and_traces(exports):
@@ -110,7 +115,7 @@ def judge(src, ex, real, mod):
     mm = sorted((c, ids.get(x, str(x))) for c, x in mod["msgs"])
     out["agree"] = (real[1] == mod["par"]) and (list(real[2]) == mm)
     if real[1]:
-        cf = conflicts(mod["traces"], set(mod["priv"]))
+        cf = conflicts(mod["traces"], set(mod["priv"]), set(c08_gen.BodyInfo(ex["loop"]).subs))
         if cf:
             a, b, loc, kind = cf
             classes = c08_gen.classify(ex["loop"], loc[0]) if mod["par"] else []
@@ -158,6 +163,10 @@ def run(chk):
     chk.lean()
     n = 1500 if chk.tier == "thorough" else 260
     sources = [(name, s, "corpus") for name, s in corpus_sources()]
+    fam = c08_gen.nest2_family()
+    if chk.tier != "thorough":       # quick: all write/read members + half of the write/write members (by seed parity)
+        fam = [f for q, f in enumerate(fam) if f[0].endswith("read") or (q // 2) % 2 == chk.seed % 2]
+    sources += [(name, c08_gen.wrap_loop(chk.rng, lines), "nest2-family") for name, lines in fam]
     for q in range(n):
         s, fl = c08_gen.gen_source(chk.rng)
         sources.append((f"gen{q}", s, fl))
